@@ -19,6 +19,9 @@ import Verif.Model.Common
     * authority/provisioner/jwk.go, x5c.go `AuthorizeSSHSign`   -> `authorizeSign` (.jwk / .x5c)
       authority/provisioner/oidc.go `AuthorizeSSHSign`          -> `authorizeSign` (.oidc admin)
       authority/provisioner/k8sSA.go `AuthorizeSSHSign`         -> `authorizeSign` (.k8ssa)
+      authority/provisioner/aws.go `AuthorizeSSHSign` (+ sshutil.DefaultIIDTemplate); the provisioner
+      is built by authority/provisioners.go `ProvisionerToCertificates` from its admin-database form
+                                                                 -> `authorizeSign` (.aws disableCustomSANs)
       authority/provisioner/nebula.go `AuthorizeSSHSign`, `nebulaPrincipalsValidator.Valid`
                                                                  -> `authorizeSign` (.nebula), `nebPrincipalsValid`
     * go.step.sm/crypto/sshutil `DefaultTemplate` ("type, key id, principals := data"),
@@ -90,6 +93,7 @@ inductive Prov where
   | oidc (admin : Bool)
   | nebula
   | k8ssa
+  | aws (disableCustomSANs : Bool)
   deriving Repr, DecidableEq
 
 /-- provisioner-specific credential data besides the token claims.
@@ -152,11 +156,13 @@ structure Data where
 
 inductive Tpl where
   | default | admin
+  | iid      -- sshutil.DefaultIIDTemplate: principals are the request's when it lists any
   deriving Repr, DecidableEq
 
 inductive OptCheck where
   | matches (want : Opts)
   | require
+  | requirePrincipals   -- sshCertOptionsRequireValidator{Principals: true}
   deriving Repr, DecidableEq
 
 structure Plan where
@@ -192,6 +198,13 @@ def authorizeClaims (prov : Prov) (t : Token) (o : Oidc) : Auth :=
     -- sshutil.CertificateRequestTemplate: type, key id and principals are the request's, all three
     -- required; the token (`sub` = service account name) fixes nothing
     .ok { checks := [.require], data := ⟨.host, t.sub, [t.sub]⟩, tpl := .admin }
+  | .aws dcs =>
+    -- host certificates only; key id = instance id (`o.email`), validated principals (`o.usernames`) =
+    -- the private IP and ip-<a-b-c-d>.<region>.compute.internal of the signed identity document.
+    -- disableCustomSANs: the request's principals must be among them; otherwise any, at least one.
+    .ok { checks := (if dcs then [] else [.requirePrincipals]) ++
+                    [.matches ⟨sHost, [], if dcs then o.usernames else []⟩]
+          data := ⟨.host, o.email, o.usernames⟩, tpl := .iid }
   | .nebula =>
     -- host certificates only; default principals = name and addresses of the Nebula certificate
     match t.ssh with
@@ -230,6 +243,8 @@ def applyTemplate (p : Plan) (req : Opts) : TplRes :=
     match certTypeFromString req.certType with
     | none => .fail
     | some ct => .cert ⟨ct.num, req.keyID, req.principals⟩
+  | .iid => .cert ⟨p.data.ct.num, p.data.keyID,
+                   if req.principals.length > 0 then req.principals else p.data.principals⟩
 
 /-- which SSH CA keys the authority holds, and whether its certificate store refuses an empty key
     (bbolt does: `db.StoreSSHCertificate` indexes the certificate under every principal) -/
@@ -270,6 +285,7 @@ def checkOpts (req : Opts) : List OptCheck → Option Nat
   | [] => none
   | .matches w :: cs => if matchOpts w req then checkOpts req cs else some 403
   | .require :: cs => if requireAll req then checkOpts req cs else some 400
+  | .requirePrincipals :: cs => if req.principals.length > 0 then checkOpts req cs else some 400
 
 def keyStatus : KeyClass → Option Nat
   | .ok => none | .rsaSmall => some 403 | .dsa => some 400
